@@ -1,20 +1,25 @@
-"""Translator for C08: the straight-line arithmetic and the threshold constants of the closed-form eigenvalue code in
-dune/common/fmatrixev.hh are re-read from the source on every run and emitted as lean/DuneVerif/Gen/C08.lean,
-generic over core arithmetic classes (Add/Sub/Mul/Div/Neg/NatCast).  Translated pieces:
+"""Translator for C08: formulas, thresholds and control tables of the closed-form eigenvalue code in
+dune/common/fmatrixev.hh (and the LAPACK call sites of fmatrixev.hh / dynmatrixev.hh, the rows()==3 block of
+DenseMatrix::determinant) are re-read from the source on every run and emitted as lean/DuneVerif/Gen/C08.lean and
+Gen/C08T.lean, generic over core arithmetic classes (Add/Sub/Mul/Div/Neg/NatCast).
 
-  eigenValues2dImpl        p, p2, q, the clamp constant of `q < 0 && q > -c`, eigenvalues[0], eigenvalues[1]
-  2x2 eigenValuesVectorsImpl   which eigenvalue is subtracted for the identity test, the identity threshold expression,
-                           the four candidate columns; the selection statement is matched literally
-  crossProduct             the three components
-  eigenValues3dImpl        p1, its threshold, q (the trace/3 loop), p2, p, the B scaling factor, r, phi, the three
-                           eigenvalue formulas
-  3x3 eigenValuesVectorsImpl   the threshold of the diagonal special case
-  DenseMatrix::determinant (densematrix.hh)   the rows()==3 block (used for B.determinant()): temporaries and the
-                           return expression in source order
+Two ways of reading the source:
 
-Anything outside the small expression grammar ( + - * / unary minus, parentheses, literals, the named variables,
-sqrt/acos/cos calls, numeric_limits<..>::epsilon(), matrix.infinity_norm(), real_type(c)/K(c) casts ) raises
-TranslateError, which check.py reports as a broken obligation and answers with a search for a failing input."""
+(1) literal rules (regular expressions + the small expression grammar `tr`): eigenValues2dImpl (p, p2, q, clamp,
+    eigenvalues), eigenValues3dImpl (p1, threshold, q loop, p2, p, B scaling, r, clamp, phi, eigenvalue formulas, sort
+    flag), the threshold of the 3x3 diagonal special case, its compare-and-swap network when written as one, the 3x3
+    assembly `if (r >= 0) {eig0; eig1; crossProduct} else {..}`, the LAPACK declarations (job characters, lwork, buffer
+    sizes), the four entry points, DenseMatrix::determinant.
+
+(2) round five: a small C++ front end (ctokenize / CParser / Exec / explore below).  The function body is parsed into
+    an AST and executed symbolically along every path; what is compared / emitted is the resulting state, so the spelling
+    of the control flow does not matter.  Read this way: max-norm preconditioning of the 2x2 and 3x3 routines, the whole
+    eigenvector part of the 2x2 routine (shift, threshold, unit vectors, column choice), crossProduct, eig0 (rows, cross
+    products, the decision tree of the search for the longest one), orthoComp, eig1, the copy loops around the three
+    LAPACK calls (executed for the orders 1..5), and the 3x3 diagonal special case when it is not written literally.
+
+Anything outside the grammars raises TranslateError, which check.py reports as a broken obligation and answers with a
+search for a failing input."""
 import os
 import re
 from fractions import Fraction
@@ -261,17 +266,6 @@ def char_decl(body, name, what, bools=()):
 
 def int_decl(body, name, what):
     return one(r"const\s+long\s+int\s+%s\s*=\s*([^;]+);" % name, body, what + ": declaration of " + name)
-
-
-def pack_orientation(body, dimname, what):
-    """the copy loop into the flat LAPACK array: False = `matrix[i][j]` (row-major), True = `matrix[j][i]`"""
-    rx = (r"int\s+row\s*=\s*0\s*;\s*for\s*\(\s*int\s+i\s*=\s*0\s*;\s*i\s*<\s*%s\s*;\s*\+\+i\s*\)\s*\{\s*"
-          r"for\s*\(\s*int\s+j\s*=\s*0\s*;\s*j\s*<\s*%s\s*;\s*\+\+j\s*,\s*\+\+row\s*\)\s*\{\s*"
-          r"(\w+)\s*\[\s*row\s*\]\s*=\s*matrix\s*\[\s*([ij])\s*\]\s*\[\s*([ij])\s*\]\s*;\s*\}\s*\}") % (dimname, dimname)
-    buf, a, b = one(rx, body, what + ": copy loop into the LAPACK array")
-    if a == b:
-        raise TranslateError("%s: copy loop reads matrix[%s][%s]" % (what, a, b))
-    return buf, a == "j"
 
 
 # ------------------------------------------------------------------------------------------------
